@@ -273,6 +273,26 @@ def run(ctx):
                         ctx.violation({**a, "fail": "benign-rejected"}, det)
                     elif st["verdict"] == "parsed" and "extdtd" in feats and verdict == "parsed" and not benign_ok(res):
                         ctx.violation({**a, "fail": "benign-misparsed"}, det)
+        # a declaration that follows a reference to an undeclared parameter entity: a non-validating processor stops
+        # processing declarations there (XML 1.0, 5.1), so the guard's declaration hook never fires.  The document still
+        # "declares an entity" in the property's words (known finding, see known_findings.json).
+        for entry in ("ovf", "vbox", "pvs", "hdd"):
+            text, benign_ok = render(entry, set(), secret, rng, {"in_attr": False})
+            root = {"ovf": "Envelope", "vbox": "VirtualBox", "pvs": "ParallelsVirtualMachine", "hdd": "Parallels_disk_image"}[entry]
+            text = text.replace('<?xml version="1.0"?>\n', f'<?xml version="1.0"?>\n<!DOCTYPE {root} [ %undeclared; <!ENTITY late "declared-after-an-unread-parameter-entity"> ]>\n', 1)
+            ctx.case(key=(entry, "undeclared-pe+entity"), nontrivial=True)
+            arm("secret-verif-xxe")
+            try:
+                consume(entry, text, work, "utf-8")
+                verdict = "parsed"
+            except Exception:  # noqa: BLE001
+                verdict = "refused"
+            finally:
+                disarm()
+            if EVENTS:
+                ctx.violation({"entry": entry, "features": "undeclared-pe+entity", "fail": "fetched"}, {"events": EVENTS[:5]})
+            if verdict != "refused":
+                ctx.violation({"entry": entry, "features": "undeclared-pe+entity", "fail": "entity-accepted"}, {"entry": entry, "doc": text[:300]})
     finally:
         tracemalloc.stop()
         shutil.rmtree(work, ignore_errors=True)
